@@ -21,7 +21,7 @@ TRUSTED_BASE = [
     "axioms: none declared; Print Assumptions output per theorem recorded in this file",
     "hand-written Gallina model (coq/*Impl.v) tied to /repo by this run's differential correspondence on the listed cases",
     "gen/src_constants.py copies literal tables/constants from /repo into coq/SrcConstants.v on every run",
-    "gen/ast_translate.py, gen/ast_translate64.py, gen/ast_translate_ptr.py (clang JSON AST -> Gallina: Translated.v unbounded; Source64.v checked 64/32-bit reading of the civil_time_detail.h and time_zone_info.cc kernels; SourcePosix.v checked reading of the pointer-walking footer parser), re-run on every check",
+    "gen/ast_translate.py, ast_translate64.py, ast_translate_ptr.py, ast_translate_out.py, ast_translate_zone.py, ast_translate_load.py, ast_translate_chrono.py (clang 14 JSON AST -> Gallina, re-run on every check, memoised on the SHA-256 of the sources: Translated.v unbounded; Source64.v checked 64/32-bit reading of ALL of civil_time_detail.h except operator<< and of the time_zone_info.cc kernels; SourcePosix.v / SourceFmtParse.v / SourceDecode.v pointer-level readers; SourceFixed.v time_zone_fixed.cc; SourceFmtOut.v / SourceFmtLoop.v / SourceFmtTM.v / SourceFmtWeek.v format()'s helpers, main loop, ToTM, ToWeek/FromWeek; SourceZone.v the zone queries; SourceLoad.v the loader incl. Load(); SourceSplit.v the time_zone.h templates through their instantiations); a function they cannot translate is reported as an undischarged obligation",
     "extraction: ExtrOcamlBasic only (bool, option, unit, list, prod, sumbool, sumor; andb/orb inlined); Z/positive/nat stay inductive",
     "ocaml/driver.ml (case parsing, printing), harness/*.cc, g++ 12.2 with ASan+UBSan, OCaml 4.13.1",
 ]
